@@ -4,6 +4,7 @@ from . import gramgen
 WS = "\n\r\t "
 
 LEXICAL = [
+    ("lex_phrase", "S: X S | X; X: PHRASE | WORD;\nterminals\nPHRASE: /[a-z]+([ ][a-z]+)*/;\nWORD: /[a-z]+/ {prefer};", "a "),
     ("lex_overlap", "S: X S | X; X: 'a' | 'ab' | 'b';", "ab"),
     ("lex_regex", "S: A B; A: AS; B: BS | EMPTY;\nterminals\nAS: /a+/;\nBS: /a*b/;", "ab"),
     ("lex_kw", "S: I S | I; I: ID | 'if';\nterminals\nID: /[a-z]+/;", "if "),
@@ -249,6 +250,15 @@ def gen_jobs(rng, quick, opts_list, with_lexical=True, nrand=None, maxlen=None, 
             rng.shuffle(longer)
             inputs += longer[:40]
         jobs.append(("null2_%d" % i, text, inputs, opts_list[i % len(opts_list)]))
+    for i in range(6 if quick else 40):
+        prods, text = gramgen.epsilon_chain_grammar(rng)
+        ins = []
+        for _ in range(14):
+            sen = gramgen.random_sentence(rng, prods, max_depth=7, max_len=8)
+            if sen is not None:
+                ins.append(sen)
+        ins = sorted(set(ins)) or ["xyr"]
+        jobs.append(("epschain%d" % i, text, ins + [" ".join(x) for x in ins[:4]], opts_list[i % len(opts_list)]))
     if nrand:
         # LALR tables with split same-kernel states (about 1% of the small random grammars)
         for i, (prods, text) in enumerate(split_state_grammars(rng, min(1500, 12 * nrand) if quick else 12000, 12 if quick else 80)):
